@@ -1415,6 +1415,8 @@ def _native(f, args, kw):
                 return m_sum([compare('==', x, args[0]) for x in slf])
         if f is functools.reduce:
             return _reduce(*args)
+        if isinstance(f, (operator.attrgetter, operator.itemgetter)):
+            return f(*args, **kw)
         if f in (dict, copy.deepcopy, copy.copy, iter, next, id):
             return f(*args, **kw)
         if isinstance(slf, ET.Element) or f is ET.SubElement or f is ET.Element:
